@@ -21,6 +21,7 @@ func init() {
 			c.run("C02-7", "GUARD-DOM: EOF before the announced length is an error", c02ShortSource)
 			c.run("C02-9", "GUARD-DOM: after a resume the receiver cross-checks the sender's remaining size against its own truncation offset", c02Resume)
 			c.run("C02-10", "GUARD-DOM: protocol-1 data loops send/write, hash and count the same chunk and stop at the announced size", c02V1Stream)
+			c.run("C02-11", "GUARD-DOM (interprocedural): no acknowledgement of the MD5 step before the digest comparison", c02AckAfterVerify)
 			c.run("C02-8", "MUST-PASS: no error result of the transfer layer is dropped; every nil-test's non-nil edge fails", c02ErrorDiscipline)
 		})
 }
@@ -1010,5 +1011,69 @@ func c02V1Stream(c *Ctx) {
 				c.check(ge && goodSum, fname+"/digest-at-end", c.ipos(in), "the digest of the hasher that saw every chunk is returned once the total reached the size", "success is returned before the total reached the size, or with another hasher's digest")
 			})
 		}
+	}
+}
+
+// writesSUCC: f (or something it calls in this package, up to depth 3) writes a line of type "SUCC" —
+// sendLine / sendBinary / sendString / sendInteger with the constant type, or a raw "#SUCC:" write.
+func (c *Ctx) writesSUCC(f *ssa.Function, depth int, seen map[*ssa.Function]bool) bool {
+	if f == nil || depth > 3 || seen[f] || len(f.Blocks) == 0 {
+		return false
+	}
+	seen[f] = true
+	found := false
+	eachInstr(f, func(in ssa.Instruction) {
+		ci, ok := in.(ssa.CallInstruction)
+		if !ok || found {
+			return
+		}
+		id := calleeID(ci.Common())
+		if idIs(tT+"sendLine", tT+"sendBinary", tT+"sendString", tT+"sendInteger")(id) {
+			if s, ok := constString(strip(ci.Common().Args[1])); ok && s == "SUCC" {
+				found = true
+			}
+			return
+		}
+		if callee := ci.Common().StaticCallee(); callee != nil && c.inPkg(callee) && c.writesSUCC(callee, depth+1, seen) {
+			found = true
+		}
+	})
+	return found
+}
+
+// c02AckAfterVerify: while the receiver handles the MD5 step, nothing acknowledges (writes a SUCC line) before the
+// digest comparison came out equal — whether the acknowledgement is written in recvFileMD5 itself or inside a helper
+// it calls. (An echo-style helper that acknowledges on receipt lets the sender report success for a file the receiver
+// is about to reject.)
+func c02AckAfterVerify(c *Ctx) {
+	rf := c.fn("trzszTransfer.recvFileMD5")
+	n := 0
+	eachInstr(rf, func(in ssa.Instruction) {
+		ci, ok := in.(ssa.CallInstruction)
+		if !ok {
+			return
+		}
+		acks := false
+		id := calleeID(ci.Common())
+		if idIs(tT+"sendLine", tT+"sendBinary", tT+"sendString", tT+"sendInteger")(id) {
+			s, isS := constString(strip(ci.Common().Args[1]))
+			acks = isS && s == "SUCC"
+		} else if callee := ci.Common().StaticCallee(); callee != nil && c.inPkg(callee) {
+			acks = c.writesSUCC(callee, 1, map[*ssa.Function]bool{})
+		}
+		if !acks {
+			return
+		}
+		n++
+		verified := false
+		for _, pr := range factBytesEqual(factsAt(in.Block())) {
+			if isVar("digest")(pr[0]) || isVar("digest")(pr[1]) {
+				verified = true
+			}
+		}
+		c.check(verified, "recvFileMD5/ack-after-verify", c.ipos(in), "the MD5 step is acknowledged only on the edge where the received digest equals the computed one", "the MD5 step is acknowledged (directly or inside a helper) before the digests were compared equal: the sender reports success for a file the receiver rejects")
+	})
+	if n == 0 {
+		c.bad("recvFileMD5/ack-after-verify", c.pos(rf.Pos()), "the MD5 step is never acknowledged: the sender cannot learn that the file was verified")
 	}
 }
